@@ -400,6 +400,17 @@ class SimulationAlgorithm(BaseSimulationAlgorithm):
                     - individual_parameters_from_model_parameters[f"sources_{i}"].mean()
                 ) / individual_parameters_from_model_parameters[f"sources_{i}"].std()
 
+        if model.source_dimension == 0:
+            # no sources: no space shifts
+            space_shifts = pd.DataFrame(
+                0.0,
+                columns=[f"w_{i}" for i in range(model.dimension)],
+                index=individual_parameters_from_model_parameters.index,
+            )
+            return pd.concat(
+                [individual_parameters_from_model_parameters, space_shifts], axis=1
+            )
+
         patient_source_values_matrix = torch.stack(
             [
                 torch.tensor(
@@ -417,7 +428,7 @@ class SimulationAlgorithm(BaseSimulationAlgorithm):
 
         space_shifts = pd.DataFrame(
             result.T,
-            columns=[f"w_{i}" for i in range(len(self.features))],
+            columns=[f"w_{i}" for i in range(model.dimension)],
             index=individual_parameters_from_model_parameters.index,
         )
 
@@ -616,7 +627,7 @@ class SimulationAlgorithm(BaseSimulationAlgorithm):
             "sources_1": "RM_SOURCES_1",
         }
 
-        for i in range(len(self.features)):
+        for i in range(model.dimension):
             dict_rm_rename[f"w_{i}"] = f"RM_SPACE_SHIFTS_{i}"
 
         # Put everything in one dataframe
